@@ -15,7 +15,7 @@
   Theorems marked (fix) need `Variant.fitKeep` = the code with fixes/C05-sample-fit.diff; for the pinned code
   `orig_samples_partition_that_fits` is a `decide` witness of the violation.
 -/
-import SH.Lemmas.Sampler
+import SH.Lemmas.SamplerDet
 import Mathlib.Tactic.Linarith
 
 namespace SH.Sampler
@@ -77,44 +77,6 @@ theorem ratio_sorted (l : List Group) (hw : ∀ g ∈ l, 0 < g.weight) : (isort 
   exact this.imp (fun h => groupLe_ratioLe _ _ h)
 
 /-! ## water filling -/
-
-/-- total weight / size of the groups that take part in the water filling (fixed-budget groups do not) -/
-def nfWeight : List Group → Int
-  | [] => 0
-  | g :: gs => (if g.fixed then 0 else g.weight) + nfWeight gs
-
-def nfSize : List Group → Int
-  | [] => 0
-  | g :: gs => (if g.fixed then 0 else g.sumSize) + nfSize gs
-
-theorem nfWeight_nonneg (s : List Group) (hw : ∀ g ∈ s, 0 < g.weight) : 0 ≤ nfWeight s := by
-  induction s with
-  | nil => simp [nfWeight]
-  | cons g gs ih =>
-    have := ih (fun x hx => hw x (by simp [hx]))
-    have := hw g (by simp)
-    simp only [nfWeight]; split <;> omega
-
-theorem nfWeight_mem (s : List Group) (hw : ∀ g ∈ s, 0 < g.weight) (p : Group) (hp : p ∈ s) (hf : p.fixed = false) :
-    p.weight ≤ nfWeight s := by
-  induction s with
-  | nil => simp at hp
-  | cons g gs ih =>
-    have hn := nfWeight_nonneg gs (fun x hx => hw x (by simp [hx]))
-    have hg := hw g (by simp)
-    simp only [nfWeight]
-    rcases List.mem_cons.1 hp with rfl | hp
-    · simp [hf]; omega
-    · have := ih (fun x hx => hw x (by simp [hx])) hp
-      split <;> omega
-
-theorem fits_assign_iff (B W : Int) (g : Group) (hf : g.fixed = false) :
-    fits (assign B W g) = true ↔ W * g.sumSize ≤ B * g.weight := by
-  simp [fits, assign, hf]
-
-theorem fits_assign_fixed (B W : Int) (g : Group) (hf : g.fixed = true) (hd : g.denom = 1) :
-    fits (assign B W g) = true ↔ g.sumSize ≤ g.budget := by
-  simp [fits, assign, hf, hd]
 
 /-- Water filling keeps every partition within its weight-proportional share of the ORIGINAL budget, whatever the
     other partitions do (order-independent form): `s` sorted by ratio, no fixed budgets, positive weights,
@@ -204,145 +166,7 @@ theorem all_fit_rest_nil (s : List Group) (B W : Int) (hs : s.Pairwise ratioLe)
 
 /-! ## the groups produced by the partition functions are well formed -/
 
-theorem mem_of_mem_runs (key : Item → Int) (l : List Item) (r : List Item) (hr : r ∈ runs key l) : ∀ x ∈ r, x ∈ l := by
-  intro x hx
-  rw [← runs_flatten key l]
-  exact List.mem_flatten.2 ⟨r, hr, hx⟩
-
-theorem hd_mem (l : List Item) (h : l ≠ []) : hd l ∈ l := by
-  cases l with
-  | nil => exact absurd rfl h
-  | cons x xs => simp [hd]
-
-theorem clamp1_pos (w : Int) : 0 < clamp1 w := by unfold clamp1; split <;> omega
-
-theorem sumSizes_nonneg (l : List Item) (h : ∀ it ∈ l, 0 ≤ it.size) : 0 ≤ sumSizes l := by
-  induction l with
-  | nil => simp [sumSizes]
-  | cons x xs ih =>
-    have := ih (fun y hy => h y (by simp [hy]))
-    have := h x (by simp)
-    simp only [sumSizes, List.map_cons, List.sum_cons] at *
-    omega
-
-/-- rows with positive metric weight and non-negative size only produce groups with positive weight,
-    non-negative size, and `denom = 1` when the budget is fixed -/
-theorem partPlain_good (cfg : Cfg) (k : PartKind) (d : Nat) (l : List Item)
-    (hw : ∀ it ∈ l, 0 < it.wMetric) (hs : ∀ it ∈ l, 0 ≤ it.size) :
-    ∀ p ∈ partPlain cfg k d l, 0 < p.weight ∧ 0 ≤ p.sumSize ∧ p.fixed = false ∧ p.sumSize = sumSizes p.items := by
-  intro p hp
-  cases k with
-  | byBudget => simp [partPlain] at hp
-  | byNs =>
-    simp only [partPlain, List.mem_map] at hp
-    obtain ⟨r, hr, rfl⟩ := hp
-    exact ⟨clamp1_pos _, sumSizes_nonneg _ (fun it hit => hs it (mem_of_mem_runs _ _ _ hr it hit)), rfl, rfl⟩
-  | byGroup =>
-    simp only [partPlain, List.mem_map] at hp
-    obtain ⟨r, hr, rfl⟩ := hp
-    exact ⟨clamp1_pos _, sumSizes_nonneg _ (fun it hit => hs it (mem_of_mem_runs _ _ _ hr it hit)), rfl, rfl⟩
-  | byMetric =>
-    simp only [partPlain, List.mem_map] at hp
-    obtain ⟨r, hr, rfl⟩ := hp
-    exact ⟨hw _ (mem_of_mem_runs _ _ _ hr _ (hd_mem r (runs_ne_nil _ _ r hr))),
-      sumSizes_nonneg _ (fun it hit => hs it (mem_of_mem_runs _ _ _ hr it hit)), rfl, rfl⟩
-  | byKey =>
-    simp only [partPlain, List.mem_map] at hp
-    obtain ⟨r, hr, rfl⟩ := hp
-    exact ⟨by simp [mkKey], sumSizes_nonneg _ (fun it hit => hs it (mem_of_mem_runs _ _ _ hr it hit)), rfl, rfl⟩
-
-theorem partition_good (cfg : Cfg) (g : Group)
-    (hw : ∀ it ∈ g.items, 0 < it.wMetric) (hs : ∀ it ∈ g.items, 0 ≤ it.size) :
-    ∀ p ∈ partition cfg g, 0 < p.weight ∧ 0 ≤ p.sumSize ∧ (p.fixed = true → p.denom = 1) ∧ p.sumSize = sumSizes p.items := by
-  intro p hp
-  unfold partition at hp
-  split at hp
-  · simp only [partBudget, List.mem_append, List.mem_map] at hp
-    rcases hp with ⟨r, hr, rfl⟩ | hp
-    · have hr' : r ∈ runs (·.metric) g.items := List.takeWhile_subset _ hr
-      exact ⟨by simp [mkFixed], sumSizes_nonneg _ (fun it hit => hs it (mem_of_mem_runs _ _ _ hr' it hit)), fun _ => rfl, rfl⟩
-    · have hsub : ∀ it ∈ ((runs (·.metric) g.items).dropWhile hasBudget).flatten, it ∈ g.items := by
-        intro it hit
-        obtain ⟨r, hr, hir⟩ := List.mem_flatten.1 hit
-        exact mem_of_mem_runs _ _ _ (List.dropWhile_subset _ hr) it hir
-      have := partPlain_good cfg _ _ _ (fun it hit => hw it (hsub it hit)) (fun it hit => hs it (hsub it hit)) p hp
-      exact ⟨this.1, this.2.1, fun h => by simp [this.2.2.1] at h, this.2.2.2⟩
-  · have := partPlain_good cfg _ _ _ hw hs p hp
-    exact ⟨this.1, this.2.1, fun h => by simp [this.2.2.1] at h, this.2.2.2⟩
-
-
 /-! ## run level statements -/
-
-theorem nfWeight_perm {a b : List Group} (h : a.Perm b) : nfWeight a = nfWeight b := by
-  induction h with
-  | nil => rfl
-  | cons x _ ih => simp [nfWeight, ih]
-  | swap x y l => simp only [nfWeight]; omega
-  | trans _ _ ih1 ih2 => exact ih1.trans ih2
-
-theorem nfSize_perm {a b : List Group} (h : a.Perm b) : nfSize a = nfSize b := by
-  induction h with
-  | nil => rfl
-  | cons x _ ih => simp [nfSize, ih]
-  | swap x y l => simp only [nfSize]; omega
-  | trans _ _ ih1 ih2 => exact ih1.trans ih2
-
-theorem nfWeight_eq_sumWeights (s : List Group) (h : ∀ g ∈ s, g.fixed = false) : nfWeight s = sumWeights s := by
-  induction s with
-  | nil => rfl
-  | cons g gs ih =>
-    have := ih (fun x hx => h x (by simp [hx]))
-    simp [nfWeight, sumWeights, h g (by simp)] at *
-    omega
-
-theorem nfWeight_fixed_append (cfg : Cfg) (l : List (List Item)) (x : List Group) :
-    nfWeight (l.map (mkFixed cfg) ++ x) = nfWeight x := by
-  induction l with
-  | nil => rfl
-  | cons r rs ih => simp [nfWeight, mkFixed, ih]
-
-theorem partition_plain (cfg : Cfg) (g : Group) (k : PartKind) (h : kindAt cfg g.depth = k) (hk : k ≠ .byBudget) :
-    partition cfg g = partPlain cfg k g.depth g.items ∧ partWeight cfg g = sumWeights (partPlain cfg k g.depth g.items) := by
-  unfold partition partWeight
-  rw [h]
-  cases k <;> simp_all
-
-theorem partition_budget (cfg : Cfg) (g : Group) (h : kindAt cfg g.depth = .byBudget) :
-    partition cfg g = partBudget cfg g.depth g.items ∧
-    partWeight cfg g = (if ((runs (·.metric) g.items).dropWhile hasBudget).flatten.isEmpty then 1
-      else sumWeights (partPlain cfg (kindAfterBudget cfg) (g.depth + 1) ((runs (·.metric) g.items).dropWhile hasBudget).flatten)) := by
-  unfold partition partWeight
-  rw [h]
-  exact ⟨rfl, rfl⟩
-
-/-- `sumWeight` as returned by the partition functions is the total weight of the groups without fixed budget
-    (whenever there is such a group) -/
-theorem partWeight_eq (cfg : Cfg) (g : Group) (hw : ∀ it ∈ g.items, 0 < it.wMetric) (hs : ∀ it ∈ g.items, 0 ≤ it.size)
-    (p : Group) (hp : p ∈ partition cfg g) (hpf : p.fixed = false) : partWeight cfg g = nfWeight (partition cfg g) := by
-  by_cases hk : kindAt cfg g.depth = .byBudget
-  · obtain ⟨e1, e2⟩ := partition_budget cfg g hk
-    rw [e1] at hp ⊢
-    rw [e2]
-    simp only [partBudget, List.mem_append, List.mem_map] at hp
-    rw [partBudget, nfWeight_fixed_append]
-    have hsub : ∀ it ∈ ((runs (·.metric) g.items).dropWhile hasBudget).flatten, it ∈ g.items := by
-      intro it hit
-      obtain ⟨r, hr, hir⟩ := List.mem_flatten.1 hit
-      exact mem_of_mem_runs _ _ _ (List.dropWhile_subset _ hr) it hir
-    have hgood := partPlain_good cfg (kindAfterBudget cfg) (g.depth + 1) _ (fun it hit => hw it (hsub it hit)) (fun it hit => hs it (hsub it hit))
-    rw [nfWeight_eq_sumWeights _ (fun x hx => (hgood x hx).2.2.1)]
-    split
-    · rename_i hemp
-      rcases hp with ⟨r, _, rfl⟩ | hp
-      · simp [mkFixed] at hpf
-      · rw [List.isEmpty_iff] at hemp
-        rw [hemp] at hp
-        cases hk2 : kindAfterBudget cfg <;> simp [partPlain, hk2, runs] at hp
-    · rfl
-  · obtain ⟨e1, e2⟩ := partition_plain cfg g _ rfl hk
-    rw [e1, e2]
-    have hgood := partPlain_good cfg (kindAt cfg g.depth) g.depth _ hw hs
-    rw [nfWeight_eq_sumWeights _ (fun x hx => (hgood x hx).2.2.1)]
 
 /-- fits_share_kept (levels without fixed budgets; both code variants). At any level of the hierarchy: a partition
     `p` of the group `g` whose size does not exceed its weight-proportional share `g.budget * p.weight / sumWeight` of
@@ -515,47 +339,6 @@ theorem handle_fit_keeps (cfg : Cfg) (hv : cfg.variant = .fitKeep) (hm : cfg.mod
       split
       · rename_i h; exact absurd h hm
       · exact sampleRows_fit_keeps cfg hv q hfit ds it hit
-
-theorem sumSizes_append (a b : List Item) : sumSizes (a ++ b) = sumSizes a + sumSizes b := by
-  simp [sumSizes]
-
-theorem nfSize_eq (s : List Group) (h : ∀ p ∈ s, p.fixed = false ∧ p.sumSize = sumSizes p.items) :
-    nfSize s = sumSizes (gitems s) := by
-  induction s with
-  | nil => rfl
-  | cons g gs ih =>
-    have := ih (fun x hx => h x (by simp [hx]))
-    have hg := h g (by simp)
-    simp only [nfSize, gitems_cons, sumSizes_append, hg.1, this]
-    simp [hg.2]
-
-theorem kindAt_pos (cfg : Cfg) (d : Nat) (hd : 1 ≤ d) : kindAt cfg d ≠ .byBudget := by
-  cases d with
-  | zero => omega
-  | succ n =>
-    unfold kindAt partList
-    cases cfg.sBudgets <;> cases cfg.sNs <;> cases cfg.sGroups <;> (try cases n) <;> simp <;> (rename_i m; cases m <;> simp) <;>
-      (rename_i m; cases m <;> simp)
-
-
-theorem nPart_pos (cfg : Cfg) : 1 ≤ nPart cfg := by
-  unfold nPart partList
-  simp only [List.length_append, List.length_cons, List.length_nil]
-  omega
-
-theorem partition_depth_pos (cfg : Cfg) (g : Group) : ∀ p ∈ partition cfg g, 1 ≤ p.depth := by
-  intro p hp
-  have plain : ∀ k d l, ∀ p ∈ partPlain cfg k d l, 1 ≤ p.depth := by
-    intro k d l p hp
-    cases k <;> simp only [partPlain, List.mem_map, List.not_mem_nil] at hp
-    all_goals (obtain ⟨r, _, rfl⟩ := hp; simp [mkNs, mkGrp, mkMetric, mkKey])
-  unfold partition at hp
-  split at hp
-  · simp only [partBudget, List.mem_append, List.mem_map] at hp
-    rcases hp with ⟨r, _, rfl⟩ | hp
-    · exact nPart_pos cfg
-    · exact plain _ _ _ p hp
-  · exact plain _ _ _ p hp
 
 /-- (fix) a group whose budget covers its whole size is kept whole by `run`, at any remaining depth -/
 theorem run_fits_all_kept (cfg : Cfg) (hv : cfg.variant = .fitKeep) (hm : cfg.mode ≠ .quota) (fuel : Nat) (q : Group)
@@ -749,47 +532,125 @@ theorem factor_monotone_in_ratio (B W : Int) (a b : Group) (ha : a.fixed = false
 
 /-- the test selector keeps at most len/sf rows -/
 theorem detCount_le (n : Nat) (num den : Int) (hn : 0 < num) (hd : 0 ≤ den) :
-    (detCount n num den : Int) * num ≤ n * den := by
-  unfold detCount
-  have h0 : 0 ≤ (n : Int) * den / num := Int.ediv_nonneg (by positivity) (Int.le_of_lt hn)
-  have h1 := Int.ediv_mul_le ((n : Int) * den) (Int.ne_of_gt hn)
-  have h2 : ((min n ((n : Int) * den / num).toNat : Nat) : Int) ≤ (n : Int) * den / num := by
-    have : ((((n : Int) * den / num).toNat : Nat) : Int) = (n : Int) * den / num := Int.toNat_of_nonneg h0
-    omega
-  nlinarith
+    (detCount n num den : Int) * num ≤ n * den := detCount_mul_le n num den hn hd
 
-/-- det_kept_le_share_partial. Full statement (not proved): "with deterministic selection (SelectF = ⌊len/sf⌋, RoundF =
-    floor) the kept size of a whole bucket of equally sized rows never exceeds the budget".
-    Proved: the arithmetic core for one leaf — whales plus deterministically selected rows are at most `len/sf` rows:
-    `(pos + k) * sfNum ≤ len * sfDen` for `pos = ⌊len*sfDen/sfNum/2⌋` whales and `k = ⌊(len-pos)/(2 sf)⌋` selected rows;
-    for rows of equal size `s` (sfNum = denom*len*s) this is `kept size * denom ≤ budget`, the leaf's share.
-    Missing: summing the leaves over the hierarchy with floor-rounded budgets; the direct oracle
-    `det-kept-size-over-budget` checks the bucket-level statement on the real code. -/
-theorem det_kept_le_share_partial (n : Nat) (num den : Int) (hn : 0 < num) (hd : 0 ≤ den) (pos : Nat)
+/-- det_leaf_count_le (was det_kept_le_share_partial; rows of ANY sizes): whales plus deterministically selected rows
+    of one leaf are at most `len/sf` rows: `(pos + k) * sfNum ≤ len * sfDen` for `pos = ⌊len*sfDen/sfNum/2⌋` whales and
+    `k = ⌊(len-pos)/(2 sf)⌋` selected rows. This COUNT bound is what the code guarantees for arbitrary row sizes: in
+    bytes a leaf may keep up to `max row / average row` times its share (a whale can be larger than the whole budget,
+    see `det_size_bound_needs_uniform_rows`). -/
+theorem det_leaf_count_le (n : Nat) (num den : Int) (hn : 0 < num) (hd : 0 ≤ den) (pos : Nat)
     (hpos : (pos : Int) ≤ (n : Int) * den / num / 2) (hle : pos ≤ n) :
-    ((pos + detCount (n - pos) (2 * num) den : Nat) : Int) * num ≤ n * den := by
-  have hk := detCount_le (n - pos) (2 * num) den (by omega) hd
-  have h1 := Int.ediv_mul_le ((n : Int) * den / num) (show (2 : Int) ≠ 0 by omega)
-  have h2 := Int.ediv_mul_le ((n : Int) * den) (Int.ne_of_gt hn)
-  have hsub : ((n - pos : Nat) : Int) = (n : Int) - pos := by omega
-  rw [hsub] at hk
-  push_cast
-  nlinarith
+    ((pos + detCount (n - pos) (2 * num) den : Nat) : Int) * num ≤ n * den :=
+  whales_plus_det_le n num den hn hd pos hpos hle
 
-/-- the model's whale count satisfies the hypothesis of det_kept_le_share_partial -/
+/-- the model's whale count satisfies the hypothesis of det_leaf_count_le -/
 theorem whalePos_le (g : Group) :
-    (whalePos g : Int) ≤ (g.items.length : Int) * sfDenOf g / sfNumOf g / 2 ∧ whalePos g ≤ g.items.length := by
-  unfold whalePos
-  have h0 : 0 ≤ (g.items.length : Int) * sfDenOf g / sfNumOf g / 2 := by
-    apply Int.ediv_nonneg _ (by omega)
-    apply Int.ediv_nonneg _ (Int.le_of_lt (sfNumOf_pos' g))
-    have := sfDenOf_pos' g
-    positivity
-  have := Int.toNat_of_nonneg h0
+    (whalePos g : Int) ≤ (g.items.length : Int) * sfDenOf g / sfNumOf g / 2 ∧ whalePos g ≤ g.items.length :=
+  whalePos_bound g
+
+/-- the fixed (aggregator supplied) per-metric budgets that are in force for this bucket (0 unless SampleBudgets) -/
+def fixedBudgetTotal (cfg : Cfg) (items : List Item) (budget : Int) : Int :=
+  fxBudget (partition cfg (topGroup cfg items budget))
+
+theorem fxBudget_nonneg (s : List Group) (h : ∀ p ∈ s, p.fixed = true → 0 ≤ p.budget) : 0 ≤ fxBudget s := by
+  induction s with
+  | nil => simp [fxBudget]
+  | cons g gs ih =>
+    have := ih (fun x hx => h x (by simp [hx]))
+    simp only [fxBudget]
+    split
+    · rename_i hf; have := h g (by simp) hf; omega
+    · omega
+
+theorem prep_fields3 (cfg : Cfg) (it : Item) :
+    (prep cfg it).size = it.size ∧ (prep cfg it).wMetric = it.wMetric ∧ (prep cfg it).metric = it.metric := by
+  unfold prep; split <;> exact ⟨rfl, rfl, rfl⟩
+
+theorem keptSize_addDiscards (l : List Item) : keptSize (l.map (fun it => Act.ev (addDiscard it))) = 0 := by
+  induction l with
+  | nil => rfl
+  | cons x xs ih => rw [List.map_cons, keptSize_cons_ev, ih]; simp [addDiscard]
+
+/-- det_kept_le_budget — the whole hierarchy. With deterministic selection (the repo tests' SelectF = ⌊len/sf⌋ and
+    RoundF = floor) the bytes kept by Add*;Run never exceed the budget plus the fixed per-metric budgets in force,
+    provided rows of one metric have one size (then the count bound of every leaf is a byte bound; the repo's tests use
+    one size for all rows) of at least 2 bytes (real estimates are ≥ 20, `agent_row_size_ge_20` in C05), SampleKeepSingle
+    is off and NoSampleAgent is not in effect (both keep rows regardless of any budget).
+    Every hierarchy (namespaces, groups, metrics, fair keys, fixed budgets), weights, tie order, both code variants.
+    Proof: induction over the partition tree (SH.Lemmas.SamplerDet). -/
+theorem det_kept_le_budget (cfg : Cfg) (hm : cfg.mode = .det) (hks : cfg.keepSingle = false)
+    (hns : cfg.agent = false ∨ cfg.disableNoSample = true)
+    (items : List Item) (budget : Int) (ds : List Nat) (hB : 0 ≤ budget)
+    (hrows : ∀ it ∈ items, 0 < it.wMetric ∧ 2 ≤ it.size) (hu : MetricUniform items) :
+    keptSize (runBucket cfg items budget ds) ≤ budget + fixedBudgetTotal cfg items budget := by
+  have hperm := isort_perm itemLe (added cfg items)
+  have hadded : ∀ it ∈ added cfg items, ∃ it0 ∈ items, it = prep cfg it0 := by
+    intro it hit
+    simp only [added, List.mem_map, List.mem_filter] at hit
+    obtain ⟨it0, ⟨hin, _⟩, rfl⟩ := hit
+    exact ⟨it0, hin, rfl⟩
+  have htop : ∀ it ∈ (topGroup cfg items budget).items, ∃ it0 ∈ items, it = prep cfg it0 :=
+    fun it hit => hadded it (hperm.mem_iff.1 hit)
+  have hrows' : ∀ it ∈ (topGroup cfg items budget).items, 0 < it.wMetric ∧ 2 ≤ it.size := by
+    intro it hit
+    obtain ⟨it0, hin, rfl⟩ := htop it hit
+    have := prep_fields3 cfg it0
+    rw [this.1, this.2.1]; exact hrows it0 hin
+  have hu' : MetricUniform (topGroup cfg items budget).items := by
+    intro a ha b hb hab
+    obtain ⟨a0, ha0, rfl⟩ := htop a ha
+    obtain ⟨b0, hb0, rfl⟩ := htop b hb
+    rw [(prep_fields3 cfg a0).1, (prep_fields3 cfg b0).1]
+    rw [(prep_fields3 cfg a0).2.2, (prep_fields3 cfg b0).2.2] at hab
+    exact hu a0 ha0 b0 hb0 hab
+  have hfx : 0 ≤ fixedBudgetTotal cfg items budget :=
+    fxBudget_nonneg _ (partition_fixed_budget cfg (topGroup cfg items budget))
+  simp only [runBucket, keptSize_append, keptSize_addDiscards, Int.zero_add]
+  split
+  · simp; omega
+  · have hnp : nPart cfg ≤ 4 := by
+      rcases cfg with ⟨_, _, _, _, _, sb, sn, sg, _, _, _, _⟩
+      cases sb <;> cases sn <;> cases sg <;> simp [nPart, partList]
+    have hinv : HInv cfg (8 + 1) (topGroup cfg items budget) := by
+      right
+      have := nPart_pos cfg
+      exact ⟨by show 0 < nPart cfg; omega, by show nPart cfg ≤ 0 + (8 + 1); omega⟩
+    have hok := detOK_of_partition cfg 8 (topGroup cfg items budget) hinv hrows' hu' (run_det_child cfg hm hks hns 8)
+    exact level_det_le cfg hm hks hns 8 (topGroup cfg items budget) ds hB (fun it hit => (hrows' it hit).1)
+      (fun it hit => by have := (hrows' it hit).2; omega) hok
+      (nfWeight_le_partWeight cfg _ (fun it hit => (hrows' it hit).1) (fun it hit => by have := (hrows' it hit).2; omega))
+
+/-- without SampleBudgets there are no fixed budgets: the kept size is at most the budget -/
+theorem det_kept_le_budget_plain (cfg : Cfg) (hm : cfg.mode = .det) (hks : cfg.keepSingle = false)
+    (hns : cfg.agent = false ∨ cfg.disableNoSample = true) (hb : cfg.sBudgets = false)
+    (items : List Item) (budget : Int) (ds : List Nat) (hB : 0 ≤ budget)
+    (hrows : ∀ it ∈ items, 0 < it.wMetric ∧ 2 ≤ it.size) (hu : MetricUniform items) :
+    keptSize (runBucket cfg items budget ds) ≤ budget := by
+  have h := det_kept_le_budget cfg hm hks hns items budget ds hB hrows hu
+  have hk : kindAt cfg (topGroup cfg items budget).depth ≠ .byBudget := by
+    simp only [topGroup, kindAt, partList, hb]
+    cases cfg.sNs <;> cases cfg.sGroups <;> simp
+  have : fixedBudgetTotal cfg items budget = 0 := fxBudget_no_fixed _ (partition_no_fixed cfg _ hk)
   omega
-where
-  sfNumOf_pos' (g : Group) : 0 < sfNumOf g := by unfold sfNumOf; split <;> omega
-  sfDenOf_pos' (g : Group) : 0 < sfDenOf g := by unfold sfDenOf; split <;> omega
+
+/-- non-vacuity: two metrics (rows of 10 and of 30 bytes), budget 100 of 240 bytes: 60 bytes are kept -/
+example :
+    let cfg : Cfg := { mode := .det }
+    let items : List Item := (List.range 6).map (fun i => { id := i, size := 10, metric := 1, rank := i }) ++
+                             (List.range 6).map (fun i => { id := 6 + i, size := 30, metric := 2, rank := 6 + i })
+    MetricUniform items ∧ keptSize (runBucket cfg items 100 []) = 60 := by
+  refine ⟨by unfold MetricUniform; decide, by decide⟩
+
+/-- det_size_bound_needs_uniform_rows: for rows of different sizes inside one metric the byte form is false — the
+    code bounds the NUMBER of kept rows of a leaf (det_leaf_count_le), not their bytes: one metric with rows of
+    100, 1, 1, 1 bytes (whale weight = size) and budget 51 keeps the 100-byte whale. The same bucket on the real
+    code is what the harness oracle `det-kept-cost-over-budget` accounts for by judging the count form. -/
+theorem det_size_bound_needs_uniform_rows :
+    let cfg : Cfg := { mode := .det }
+    let items : List Item := [{ id := 0, size := 100, whale := 100, metric := 1 }, { id := 1, size := 1, whale := 1, metric := 1, rank := 1 },
+                              { id := 2, size := 1, whale := 1, metric := 1, rank := 2 }, { id := 3, size := 1, whale := 1, metric := 1, rank := 3 }]
+    keptSize (runBucket cfg items 51 []) = 100 := by decide
 
 /-! ## quota mode (SampleQuota, used by calcHostMetricBudgets) -/
 
